@@ -181,7 +181,8 @@ class World:
                 'svc_restart_with_live_requests', 'svc_start_failed',
                 'stale_requests_reclaimed', 'ip_reused',
                 'id_requested_again_before_delete_processed',
-                'order_permuted_listings', 'layout_with_symlinked_dirs'), 0)
+                'order_permuted_listings', 'layout_with_symlinked_dirs',
+                'pool_initialized_while_others_hold_ips'), 0)
             self.faults = dict.fromkeys((
                 'svc_killed_mid_request', 'svc_crash', 'command_failed',
                 'owner_vanished', 'lookup_failed'), 0)
@@ -254,8 +255,15 @@ class World:
         if lay.get('relative'):
             # VipMgr is given paths relative to the working directory
             vip_args = tuple(os.path.relpath(p) for p in vip_args)
-        self.vipmgr = vipfile.VipMgr(config['cidr'], *vip_args)
-        self.cidr = ipaddress.IPv4Network(config['cidr'])
+        # one pool per CIDR, all on ONE vips directory with one owners
+        # directory (how warpgate.policy_server._init_networks builds them)
+        cidrs = [config['cidr']] + list(config.get('extra_pools') or ())
+        self.cidrs = [ipaddress.IPv4Network(c) for c in cidrs]
+        self.vippools = [vipfile.VipMgr(c, *vip_args) for c in cidrs]
+        self.vipmgr = self.vippools[0]
+        self.cidr = self.cidrs[0]
+        if len(cidrs) > 1 and prop == 'C14':
+            self.probes['vip_pools_sharing_a_directory'] = len(cidrs)
         self.impl = None
         self.watcher = None
         # -- reference
@@ -356,17 +364,25 @@ class World:
         self.clock.advance(op['dt'])
 
     # ------------------------------------------------------------------
-    # direct VipMgr
+    # direct VipMgr pools
+    def _pool(self, op):
+        idx = op.get('pool', 0) % len(self.vippools)
+        return self.vippools[idx], self.cidrs[idx]
+
+    def _in_pools(self, ip):
+        try:
+            addr = ipaddress.IPv4Address(ip)
+        except ValueError:
+            return False
+        return any(addr in cidr for cidr in self.cidrs)
+
     def _vip_check(self, op, expected, cls, by=None, pre=None):
         actual = netcheck.read_links(self.vipd_dir)
         for ip in sorted(actual):
-            try:
-                inside = ipaddress.IPv4Address(ip) in self.cidr
-            except ValueError:
-                inside = False
-            if not inside:
+            if not self._in_pools(ip):
                 self.fail('C14:ip-outside-network',
-                          'vip %r is not in %s' % (ip, self.cidr))
+                          'vip %r is in none of %s' % (
+                              ip, [str(c) for c in self.cidrs]))
                 return
         bad = netcheck.compare('vip', actual, expected, {
             'op': op['op'], 'cls': cls, 'by': by, 'live': self.is_live,
@@ -374,7 +390,7 @@ class World:
         if bad:
             self.fail(*bad)
             return
-        listed = dict(self.vipmgr.list())
+        listed = dict(self._pool(op)[0].list())
         if listed != actual:
             self.fail('C14:list-mismatch:vip',
                       'VipMgr.list() %r != directory %r' % (listed, actual))
@@ -385,8 +401,9 @@ class World:
         pre = dict(self.vip_ref)
         exp = dict(pre)
         picked = op.get('ip')
+        pool, cidr = self._pool(op)
         try:
-            ip = self.vipmgr.alloc(owner, picked_ip=picked)
+            ip = pool.alloc(owner, picked_ip=picked)
         except ValueError as err:
             self.log.ev('vip_alloc', owner, 'ValueError', str(err))
             self.probes['alloc_refused'] += 1
@@ -394,7 +411,7 @@ class World:
         except Exception as err:  # pylint: disable=broad-except
             # VipMgr signals "no free IP" / "IP taken" with a bare Exception
             self.log.ev('vip_alloc', owner, type(err).__name__)
-            free = [h for h in self.cidr.hosts() if str(h) not in pre]
+            free = [h for h in cidr.hosts() if str(h) not in pre]
             if picked is None and not free:
                 self.probes['alloc_exhausted'] += 1
             else:
@@ -404,12 +421,12 @@ class World:
             self.log.ev('vip_alloc', owner, ip)
             self.probes['alloc_ok'] += 1
             try:
-                inside = ipaddress.IPv4Address(ip) in self.cidr
+                inside = ipaddress.IPv4Address(ip) in cidr
             except ValueError:
                 inside = False
             if not inside:
                 self.fail('C14:ip-outside-network',
-                          'alloc returned %r, not in %s' % (ip, self.cidr))
+                          'alloc returned %r, not in %s' % (ip, cidr))
                 return
             if ip in pre and pre[ip] != owner:
                 self.fail('C14:vip-two-owners',
@@ -437,7 +454,7 @@ class World:
                 self.probes['nonowner_release_attempts'] += 1
                 self.nontrivial += 1
         try:
-            self.vipmgr.free(owner, ip)
+            self._pool(op)[0].free(owner, ip)
         except OSError as err:
             self.log.ev('vip_free', owner, ip, 'OSError', err.errno)
         self._vip_check(op, exp, cls, by=owner, pre=pre)
@@ -640,14 +657,23 @@ class World:
         self.probes['gc_reclaimed'] += dead
 
     def op_vip_gc(self, op):
-        self._gc_pass('vip', op, self.vipmgr.garbage_collect)
+        self._gc_pass('vip', op, self._pool(op)[0].garbage_collect)
         if self.violation is None:
             self._vip_check(op, dict(self.vip_ref), 'other')
 
     def op_vip_init(self, op):
+        # a restart of the user of one pool: it drops what that pool handed
+        # out ("remove any IP we own") - and nothing of the other pools
         pre = dict(self.vip_ref)
-        self.vipmgr.initialize()
-        self._vip_check(op, {}, 'init', pre=pre)
+        pool, cidr = self._pool(op)
+        exp = {ip: o for ip, o in pre.items()
+               if ipaddress.IPv4Address(ip) not in cidr}
+        if exp:
+            self.probes['pool_initialized_while_others_hold_ips'] += 1
+            if any(self.is_live(o) for o in exp.values()):
+                self.nontrivial += 1
+        pool.initialize()
+        self._vip_check(op, exp, 'init', pre=pre)
 
     # ------------------------------------------------------------------
     # RuleMgr
@@ -1535,9 +1561,12 @@ class Generator:
         owner = self._owner(world)
         if owner is None:
             return None
+        pool = self.rng.randrange(len(world.cidrs))
         op = {'owner': owner}
+        if pool:
+            op['pool'] = pool
         if self.rng.random() < 0.3:
-            hosts = list(world.cidr)
+            hosts = list(world.cidrs[pool])
             if self.rng.random() < 0.15:
                 op['ip'] = '10.99.0.%d' % self.rng.randint(1, 3)
             elif world.vip_ref and self.rng.random() < 0.5:
@@ -1556,13 +1585,27 @@ class Generator:
             owner = self._owner(world)
         if owner is None:
             return None
-        return {'owner': owner, 'ip': ip}
+        return self._some_pool(world, {'owner': owner, 'ip': ip})
+
+    def _some_pool(self, world, op):
+        pool = self.rng.randrange(len(world.cidrs))
+        if pool:
+            op['pool'] = pool
+        return op
+
+    @staticmethod
+    def _pool_of(world, ip):
+        for idx, cidr in enumerate(world.cidrs):
+            if ipaddress.IPv4Address(ip) in cidr:
+                return idx
+        return 0
 
     def g_vip_gc(self, world):
-        return self._with_during(world, 'vip', {'ord': self.order()})
+        return self._with_during(world, 'vip', self._some_pool(
+            world, {'ord': self.order()}))
 
     def g_vip_init(self, world):
-        return {'ord': self.order()}
+        return self._some_pool(world, {'ord': self.order()})
 
     def _rule_spec(self):
         rng = self.rng
@@ -1646,7 +1689,8 @@ class Generator:
                 if release:
                     nested.append({'op': 'vip_free', 'owner': holder,
                                    'ip': key})
-                nested.append({'op': 'vip_alloc', 'owner': taker, 'ip': key})
+                nested.append({'op': 'vip_alloc', 'owner': taker, 'ip': key,
+                               'pool': self._pool_of(world, key)})
             elif kind == 'rule':
                 chain, spec = self._rule_of_key(key)
                 if release:
@@ -1676,7 +1720,8 @@ class Generator:
             if kind == 'vip':
                 name = key
                 wops += [{'op': 'vip_free', 'owner': holder, 'ip': key},
-                         {'op': 'vip_alloc', 'owner': taker, 'ip': key}]
+                         {'op': 'vip_alloc', 'owner': taker, 'ip': key,
+                          'pool': self._pool_of(world, key)}]
             elif kind == 'rule':
                 chain, spec = self._rule_of_key(key)
                 name = rulefile.RuleMgr._filenameify(chain,
@@ -2068,6 +2113,13 @@ def make_config(prop, tier, rng):
             layout[key] = rng.random() < 0.4
     cfg['layout'] = layout
     cfg['p_stat_fault'] = rng.choice([0.0, 0.1, 0.25])
+    # further VipMgr pools (other, disjoint CIDRs) on the same directory
+    extra = rng.choice([[], [], ['10.21.0.0/30'], ['10.21.0.0/29'],
+                        ['10.21.0.0/30', '10.22.0.0/29']])
+    cfg['extra_pools'] = extra
+    if extra and prop == 'C14':
+        # the user of one pool restarts while the others hold addresses
+        wmul['vip_init'] = rng.choice([1.0, 4.0, 8.0])
     return cfg
 
 
